@@ -150,6 +150,7 @@ SetKey(c, k, x) ==
       [] k = "events.pl" -> [c EXCEPT !.events["pl"] = x]
       [] k = "events.topic" -> [c EXCEPT !.events["topic"] = x]
       [] k = "events.msg" -> [c EXCEPT !.events["msg"] = x]
+      [] k = "events.tpi" -> [c EXCEPT !.events["tpi"] = x]
       [] k = "notif.room" -> [c EXCEPT !.notif["room"] = x]
       [] k = "notif.here" -> [c EXCEPT !.notif["here"] = x]
       [] k = "users.alice" -> [c EXCEPT !.users["alice"] = x]
@@ -193,7 +194,7 @@ InitPL2 ==
 \* per-event-type entries against BOTH defaults held constant at any value (the level a type needs as a message
 \* resp. state event when it has no entry), for senders at level 2 and 3
 InitPL3 ==
-    \E s \in {2, 3}, ed \in PLValsSmall, sd \in PLValsSmall, k \in {"events.topic", "events.msg", "events.pl"},
+    \E s \in {2, 3}, ed \in PLValsSmall, sd \in PLValsSmall, k \in {"events.topic", "events.msg", "events.pl", "events.tpi"},
        o \in PLValsSmall, n \in PLValsSmall :
        /\ o # n
        /\ LET ctx == SetKey(SetKey(BasePL(s), "events_default", ed), "state_default", sd) IN
